@@ -253,7 +253,8 @@ def gen_scenario(rng, fam):
     single = fam in ('sel', 'dom', 'cut', 'force')       # single-bead residues: no pair shares a residue
     nres_total = rng.randint(4, 10) if single else rng.randint(3, 7)
     nchains = rng.choice([1, 2, 2, 3])
-    nochain = rng.random() < 0.1 and fam not in ('dom',)
+    nochain = rng.random() < 0.1 and fam not in ('dom',)         # no particle carries a chain identifier
+    lonely = rng.randrange(3) if rng.random() < 0.15 else -1      # or only the particles of one chain lack it
     atoms, edges, res_members = [], [], []
     pos_bb = [0, 0, 0]
     chain_of_res = []
@@ -262,7 +263,7 @@ def gen_scenario(rng, fam):
     resid = 0
     prev_bb = None
     for c in range(len(bounds) - 1):
-        chain = '-' if nochain else 'ABC'[c]
+        chain = '-' if (nochain or c == lonely) else 'ABC'[c]
         if c == 0:
             resid = rng.randint(1, 20)
         elif not (single and nochain):      # input numbering may overlap between chains (kept apart when no chain id
